@@ -600,6 +600,14 @@ class Interp(object):
             return iter(())
         Validation.register_handler(klass, simkit_raising_rule)
 
+    def op_deep_chain(self, t, name, n=34):
+        """n Sections nested in each other below t, the innermost with a Property."""
+        cur = t
+        for i in range(n):
+            cur = odml.Section(name=name if i == 0 else "lvl%d" % i, type="t1", parent=cur)
+        odml.Property(name="bottom", values=[1, 2, 3], parent=cur)
+        return {"new": self.U.index(t)}
+
     def op_reseed(self, k=0):
         """The application seeds the random module for purposes of its own (a reproducible
         experiment): an event of the environment, not of the library."""
